@@ -21,7 +21,7 @@
 From Coq Require Import List Arith NArith Bool.
 Import ListNotations.
 Require Import Aiuti.Buffer Aiuti.BufferCore Aiuti.BufferFlag Aiuti.BufferJoin Aiuti.BufferQuiet
-               Aiuti.BufferOnce Aiuti.BufferProgress Aiuti.Case_Buffer Aiuti.Case_C03 Aiuti.BufferMon Aiuti.BufferMonSound.
+               Aiuti.BufferOnce Aiuti.BufferProgress Aiuti.Case_Buffer Aiuti.Case_C03 Aiuti.BufferMon Aiuti.BufferMonSound Aiuti.BufferTrk Aiuti.BufferMon3.
 
 (* The function only ever receives arguments that were submitted: every element
    of every set passed to the function in the macro step of event e was handed
@@ -171,6 +171,28 @@ Theorem walk_monitor_sound :
     (own_thread evs = true -> NoDup (offered_args (trk_run trk0 evs)) -> NoDup (ok_sets (concat observed))).
 Proof. exact c03_walk_sound. Qed.
 Print Assumptions walk_monitor_sound.
+
+(* The input tracker of the monitors (a function of the script alone) agrees with the model on what
+   has been handed to the buffer, after EVERY event list — this is what ties the monitors' reading
+   of the input to the model. *)
+Theorem tracker_agrees_on_offers :
+  forall (T : N) (evs : list event), offered_args (trk_run trk0 evs) = off (gh (final T evs)).
+Proof. exact offered_args_final. Qed.
+Print Assumptions tracker_agrees_on_offers.
+
+(* Completeness of three of the four conjuncts of Case_C03.ok = ok_csets && ok_offered && ok_once && ok_walk:
+   on the model's own trace of EVERY event list the call-set part, the only-submitted part and the
+   exactly-once part accept.  (monitor_complete proper is NOT proved: the remaining conjunct ok_walk
+   additionally re-checks "failed set offered again" and "settled tail => everything delivered"; its
+   completeness needs two more simulation invariants — the failed set stays inside the round's input
+   set, and "no producer open in the tracker => the daemon is not parked on a producer" — see notes.) *)
+Theorem monitor_complete_partial :
+  forall (T : N) (evs : list event),
+    ok_csets (Case T evs (trace T evs)) = true /\
+    ok_offered (Case T evs (trace T evs)) = true /\
+    ok_once (Case T evs (trace T evs)) = true.
+Proof. exact c03_complete_partial. Qed.
+Print Assumptions monitor_complete_partial.
 
 Theorem monitor_implies_callset_part : forall c, Case_C03.ok c = true -> ok_csets c = true.
 Proof. exact ok_implies_csets. Qed.
